@@ -105,6 +105,24 @@ def obligations(tier, seed):
                       body=SHDR + decl_ + '\nVF_STATIC_FACT(vf_streq(au::unit_label(VD{}), "%s"));\nint main() {}\n' % text,
                       contract='static fact: a unit declared as `%s` has the label "%s" (never the label of the differently sized unit it is built from)' % (decl_.split(chr(10))[0], text),
                       functions_under_contract=('au::unit_label / UnitLabel (compile-time)',)))
+    # ---- the documented label grammar on a wider list of unit expressions (supporting static facts; one TU per group so that a failure names its group)
+    GH = ('#include "au/au.hh"\n#include "au/units/meters.hh"\n#include "au/units/seconds.hh"\n#include "au/units/inches.hh"\n#include "au/units/feet.hh"\n#include "au/units/bytes.hh"\n'
+          '#include "au/units/bits.hh"\n#include "au/units/celsius.hh"\n#include "au/units/kelvins.hh"\nusing namespace au;\n#define VF_STATIC_FACT(c) static_assert(c, "VF_STATIC_FACT")\n'
+          'constexpr bool vf_streq(const char *a, const char *b) { return (*a == *b) && (*a == 0 || vf_streq(a + 1, b + 1)); }\n'
+          '#define VF_LABEL(text, ...) VF_STATIC_FACT(vf_streq(unit_label<__VA_ARGS__>(), text) && sizeof(unit_label<__VA_ARGS__>()) == sizeof(text))\n')
+    groups = {'prefixes': [('um', 'Micro<Meters>'), ('ns', 'Nano<Seconds>'), ('Mm', 'Mega<Meters>'), ('KiB', 'Kibi<Bytes>'), ('Mib', 'Mebi<Bits>'), ('dm', 'Deci<Meters>'), ('dam', 'Deka<Meters>'),
+                           ('Ym', 'Yotta<Meters>'), ('qm', 'Quecto<Meters>'), ('km / s', 'decltype(Kilo<Meters>{} / Seconds{})'), ('ms', 'Milli<Seconds>'), ('GB', 'Giga<Bytes>')],
+              'powers-products': [('s^(-1)', 'UnitInverseT<Seconds>'), ('s^(-2)', 'UnitPowerT<Seconds, -2>'), ('m * s', 'UnitProductT<Meters, Seconds>'), ('m / s^2', 'UnitQuotientT<Meters, UnitPowerT<Seconds, 2>>'),
+                                  ('m^2 / s', 'UnitQuotientT<UnitProductT<Meters, Meters>, Seconds>'), ('m^2 * s^2', 'UnitPowerT<UnitProductT<Meters, Seconds>, 2>'), ('', 'UnitProductT<>'),
+                                  ('m / (s * K)', 'UnitQuotientT<Meters, UnitProductT<Seconds, Kelvins>>'), ('m^(1/2)', 'UnitPowerT<Meters, 1, 2>')],
+              'scaled-common': [('EQUIV{[(1 / 5000) m], [(1 / 127) in]}', 'CommonUnitT<Inches, Meters>'), ('in', 'CommonUnitT<Feet, Inches>'),
+                                ('EQUIV{[(1 / 100) degC], [(1 / 100) K]}', 'CommonPointUnitT<Celsius, Kelvins>'), ('[(UNLABELED SCALE FACTOR) m]', 'decltype(Meters{} * mag<3>() * Magnitude<Pi>{})'),
+                                ('[(25 / 3) m]', 'decltype(Meters{} / mag<3>() * pow<2>(mag<5>()))'), ('[12 in]', 'decltype(Inches{} * mag<12>())'), ('ft', 'Feet')]}
+    for gname, items in groups.items():
+        obs.append(Ob(id='C18.static.labels.%s' % gname, prop='C18', group='C18.static', prelude='', wrappers=[], inputs=[], kind='S',
+                      body=GH + '\n'.join('VF_LABEL("%s", %s);' % (t, u) for t, u in items) + '\nint main() {}\n',
+                      contract='static facts: label text and reported size (length + 1) of ' + '; '.join('%s -> "%s"' % (u, t) for t, u in items),
+                      functions_under_contract=('au::unit_label / UnitLabel (compile-time)',)))
     # ---- streaming: operator<<(ostream&, Quantity) inserts the NUMERIC value (integer promotion: never the char overload), then " ", then the label.
     #      The ostream is not modelled: its inserters are trusted recorder stubs that log which overload was called with what (ghost log).
     IOPRE = '#include <ostream>\n#include "au/io.hh"\n#include "au/units/meters.hh"\n#include "au/units/seconds.hh"'
